@@ -207,6 +207,8 @@ def reflection(ctx, rng, idx):
     r1 = disc.rhs(f); r2 = unmirror(disc2.rhs(f2), spec.mname)
     if not (_finite(r1) and _finite(r2)):
         raise core.Skip("nonfinite rhs")       # reconstructed face states left the admissible set (possibly in one twin only, by round-off)
+    if not (gen.faces_admissible(disc, spec.mname) and gen.faces_admissible(disc2, spec.mname)):
+        raise core.Skip("reconstructed face states not admissible")
     fs = _fluxscale(spec.mname, model, spec.prim)
     # unlimited reconstructions of rough data can produce extreme face states (tiny density => huge enthalpy flux): the round-off of the
     # residual is relative to the face fluxes actually formed, not only to the cell-state scale
